@@ -339,7 +339,8 @@ def store_predicates(ctx, modules):
                 continue
             var = subs[0].value.id
             # only predicates that depend on nothing but the record's opcode
-            names = {x.id for x in ast.walk(expr) if isinstance(x, ast.Name)} - {var}
+            bound = {y.id for c in ast.walk(expr) if isinstance(c, ast.comprehension) for y in ast.walk(c.target) if isinstance(y, ast.Name)}
+            names = {x.id for x in ast.walk(expr) if isinstance(x, ast.Name)} - {var} - bound - {"any", "all", "len", "str", "int", "bool", "set", "list", "tuple"}
             genv = {}
             for nm in sorted(names):
                 defs = [n for n in own_nodes(f.node) if isinstance(n, ast.Assign) and len(n.targets) == 1 and isinstance(n.targets[0], ast.Name) and n.targets[0].id == nm]
@@ -385,7 +386,8 @@ def store_predicates(ctx, modules):
                     lits |= {x for x in v if isinstance(x, str)}
                 elif isinstance(v, str):
                     lits.add(v)
-            if not (lits & {"MSTORE", "SSTORE", "MSTORE8"}):
+            # a literal that names a store opcode, or a fragment of one ("STORE")
+            if not any(l and (l in st or st in l) for l in lits for st in ("MSTORE", "SSTORE", "MSTORE8")):
                 continue
             fn = ast.FunctionDef(name="_p", args=ast.arguments(posonlyargs=[], args=[ast.arg(arg=var)], kwonlyargs=[], kw_defaults=[], defaults=[]),
                                  body=[ast.Return(value=expr)], decorator_list=[])
@@ -603,3 +605,63 @@ def co_renewed_state(ctx, module_prefixes):
             if len(group) < 2:
                 continue
             yield f, loop, group, [(stmts, sorted(r), sorted(set(group) - set(r))) for stmts, r in places]
+
+
+# ------------------------------------------------------------------------------------------------------------
+def aliased_accumulators(ctx, module_prefixes=None):
+    """`a = b = set()` binds ONE object to both names.  Yields (finfo, assign node, names) for every chained assignment of a fresh
+    mutable container (display or constructor call) to several plain names of which at least two are afterwards mutated in place in
+    the same function: what goes into one accumulator shows up in the other."""
+    for f in ctx.p.functions.values():
+        if module_prefixes and not f.module.name.startswith(tuple(module_prefixes)):
+            continue
+        for n in own_nodes(f.node):
+            if not (isinstance(n, ast.Assign) and len(n.targets) >= 2 and all(isinstance(t, ast.Name) for t in n.targets)):
+                continue
+            v = n.value
+            fresh = isinstance(v, (ast.List, ast.Dict, ast.Set, ast.ListComp, ast.DictComp, ast.SetComp)) or \
+                (isinstance(v, ast.Call) and isinstance(v.func, ast.Name) and v.func.id in ("set", "list", "dict", "defaultdict", "OrderedDict", "Counter", "deque"))
+            if not fresh:
+                continue
+            names = [t.id for t in n.targets]
+            mutated = set()
+            for m in own_nodes(f.node):
+                if isinstance(m, ast.Call) and isinstance(m.func, ast.Attribute) and isinstance(m.func.value, ast.Name) and m.func.value.id in names \
+                        and m.func.attr in MUTATORS:
+                    mutated.add(m.func.value.id)
+                elif isinstance(m, ast.Subscript) and isinstance(m.ctx, (ast.Store, ast.Del)) and isinstance(m.value, ast.Name) and m.value.id in names:
+                    mutated.add(m.value.id)
+                elif isinstance(m, ast.AugAssign) and isinstance(m.target, ast.Name) and m.target.id in names:
+                    mutated.add(m.target.id)
+            if len(mutated) >= 2:
+                yield f, n, sorted(mutated)
+
+
+# ------------------------------------------------------------------------------------------------------------
+def misplaced_named_arguments(ctx):
+    """A positional argument that is a plain name equal to the name of *another* parameter of the callee (and not of the one it is
+    bound to) — the call site and the signature disagree about the order.  Yields (caller finfo, call, position, argument name,
+    parameter it is bound to, position the callee has that name at).  Only precisely resolved calls."""
+    for f in ctx.p.functions.values():
+        for c in calls_in(f.node):
+            if any(isinstance(a, ast.Starred) for a in c.args):
+                continue
+            targets = ctx.r.resolve_call(f, c)
+            if len(targets) != 1:
+                continue
+            t = targets[0]
+            params = list(t.params)
+            if t.cls is not None and params and params[0] in ("self", "cls"):
+                if t.name == "__init__" or isinstance(c.func, ast.Attribute):
+                    params = params[1:]
+            for i, a in enumerate(c.args):
+                if not isinstance(a, ast.Name) or i >= len(params):
+                    continue
+                if a.id in params and params.index(a.id) != i and params[i] != a.id:
+                    j = params.index(a.id)
+                    # not a deliberate swap of two names (f(b, a) for params (a, b) IS the suspicious case) — but skip when the name at
+                    # the callee's position is passed there as well (the caller simply has its own variable of that name)
+                    other = c.args[j] if j < len(c.args) else next((k.value for k in c.keywords if k.arg == a.id), None)
+                    if isinstance(other, ast.Name) and other.id == a.id:
+                        continue
+                    yield f, c, i, a.id, params[i], j
